@@ -68,6 +68,15 @@ func classes(sc *out.Scenario) []string {
 	} else {
 		cl = append(cl, "c2s")
 	}
+	if sc.Opts.Real {
+		cl = append(cl, "negotiated")
+	}
+	if sc.Opts.WS && sc.Opts.Real {
+		cl = append(cl, "websocket")
+	}
+	if sc.Opts.PeerNS != "" {
+		cl = append(cl, "peer-other-namespace")
+	}
 	return cl
 }
 
@@ -77,7 +86,7 @@ func classes(sc *out.Scenario) []string {
 func wellFormed(sc *out.Scenario, o *out.Outcome) bool {
 	for i, c := range sc.Calls {
 		if c.Expect == nil && c.Kind != "close" {
-			if sc.Mode == "seq" && o != nil && !o.Wrote(i) {
+			if (sc.Mode == "seq" || sc.Mode == "fault") && o != nil && !o.Wrote(i) {
 				continue
 			}
 			return false
@@ -131,6 +140,9 @@ func (x *runner) run(sc *out.Scenario) {
 			if c.Expect == nil || i >= len(o.Results) || out.AllOk(o.Results[i]) || hasProblemFor(o, i) {
 				continue
 			}
+			if sc.Mode == "fault" && o.Faulted && i == len(sc.Calls)-1 {
+				continue // the connection write was made to fail: an error is the right answer
+			}
 			x.res.Fail(key(c, "unexpected-error"), fmt.Sprintf("call %d has a well-formed argument and the session is open, but it reports %v", i, o.Results[i]), sc)
 		}
 		for _, f := range o.WireCheck(sc) {
@@ -171,8 +183,28 @@ func hasProblem(o *out.Outcome, cl ...string) bool {
 	return false
 }
 
+// opts: c2s / s2s, initiated / received; a quarter of the sessions are
+// negotiated by the library's own negotiator against a scripted peer, half of
+// those with WebSocket framing (the peer's header is then in the framing name
+// space); on the others the peer's header carries the OTHER content name space
+// a quarter of the time (the library accepts either).
 func opts(r *hx.Rand) out.SessOpts {
-	return out.SessOpts{S2S: r.Chance(2, 5), Received: r.Chance(1, 3)}
+	o := out.SessOpts{S2S: r.Chance(2, 5), Received: r.Chance(1, 3)}
+	// (a received server-to-server session cannot be negotiated through the public
+	// API: the negotiator compares the peer's from with an origin that
+	// ReceiveSession has no way to set - "stream origin example.org does not match
+	// previously set origin" - reported, not C05's)
+	if r.Chance(1, 4) && !(o.S2S && o.Received) {
+		o.Real = true
+		o.WS = r.Bool()
+	}
+	if !o.WS && r.Chance(1, 4) {
+		o.PeerNS = out.NSClient
+		if !o.S2S {
+			o.PeerNS = out.NSServer
+		}
+	}
+	return o
 }
 
 func nsOf(o out.SessOpts) string {
@@ -208,12 +240,12 @@ func main() {
 		}
 		x.run(&rp.Case)
 	} else {
-		nBare, nSeq, nConc, nForced, nMal, nDbl := 1200, 260, 60, 40, 160, 3
+		nBare, nSeq, nConc, nForced, nMal, nDbl, nFault := 1200, 260, 60, 40, 160, 3, 120
 		if o.Thorough() {
-			nBare, nSeq, nConc, nForced, nMal, nDbl = 9000, 2200, 500, 300, 1200, 12
+			nBare, nSeq, nConc, nForced, nMal, nDbl, nFault = 9000, 2200, 500, 300, 1200, 12, 900
 		}
 		if o.Search {
-			nBare, nSeq, nConc, nForced, nMal, nDbl = 12000, 3000, 600, 300, 1500, 12
+			nBare, nSeq, nConc, nForced, nMal, nDbl, nFault = 12000, 3000, 600, 300, 1500, 12, 1200
 		}
 		// corpus first
 		for _, sc := range corpus() {
@@ -234,6 +266,23 @@ func main() {
 						break
 					}
 				}
+			}
+			x.run(sc)
+		}
+		// fault plans: the k-th write to the connection made during the last call
+		// fails (small elements: the final flush is then the only write). A call
+		// that reports success must have its element on the wire.
+		for i := 0; i < nFault; i++ {
+			so := opts(r)
+			g := &out.Gen{R: r, NS: nsOf(so), NoBig: true}
+			sc := &out.Scenario{Mode: "fault", Opts: so, FaultAt: 1}
+			if r.Chance(1, 5) {
+				sc.FaultAt = 2
+			}
+			for k := r.Intn(2) + 1; k > 0; k-- {
+				c := g.Call(false, false)
+				c.Flush = nil
+				sc.Calls = append(sc.Calls, c)
 			}
 			x.run(sc)
 		}
